@@ -297,8 +297,8 @@ class Ctx:
             self.evaluations += 1
             # a share of the cases is put to the implementation with candidates numbered from 0 (common.LABEL_MODE); a case that
             # was reported carries the mode with it (_labels), so that its replay asks the same question
-            lm = c.get('_labels') or ('ints0' if (self.zero_labels is True or (self.zero_labels and stream in self.zero_labels)) and int(common.case_hash(c), 16) % 4 == 0
-                                       and stream != 'replay' else 'std')
+            lm = c.get('_labels') or ({0: 'ints0', 1: 'objs'}.get(int(common.case_hash(c), 16) % 6, 'std')
+                                       if (self.zero_labels is True or (self.zero_labels and stream in self.zero_labels)) and stream != 'replay' else 'std')
             if lm != 'std':
                 c = dict(c, _labels=lm)
                 self.dist['labels:' + lm] += 1
